@@ -715,6 +715,29 @@ class Bits:
         return new
 
     @staticmethod
+    def _subsumes(p, o):
+        """p ⊒ o without building the join: every value of o is among p's alternatives (a missing key is TOP)."""
+        if p is o:
+            return True
+        for k, pv in p.items():
+            ov = o.get(k)
+            if isinstance(k[0], str):
+                if ov != pv:
+                    return False
+                continue
+            if ov is None:
+                if pv != TOP:
+                    return False
+                continue
+            if pv is ov or pv == TOP:
+                continue
+            pa = pv.alts
+            for a in ov.alts:
+                if a not in pa:
+                    return False
+        return True
+
+    @staticmethod
     def _distance(a, b):
         return sum(1 for k in set(a) | set(b) if isinstance(k[0], int) and a.get(k) != b.get(k))
 
@@ -750,16 +773,23 @@ class Bits:
                         work.append(d)
                         continue
                     # subsumed by an existing partition?
-                    if any(self._join_states(p_, o2) == p_ for p_ in parts):
+                    if any(self._subsumes(p_, o2) for p_ in parts):
                         continue
                     if len(parts) < self.parts:
                         parts.append(dict(o2))
                     else:
                         best = min(range(len(parts)), key=lambda i_: self._distance(parts[i_], o2))
                         parts[best] = self._join_states(parts[best], o2)
-                    self.IN[d] = self._join_states(self.IN[d], o2)
                     if d not in work:
                         work.append(d)
+        # the joined view
+        for d in range(n):
+            parts = self.PIN[d]
+            if parts:
+                st = parts[0]
+                for o in parts[1:]:
+                    st = self._join_states(st, o)
+                self.IN[d] = st
 
     def reachable(self, bb):
         return self.IN[bb] is not None
